@@ -24,6 +24,7 @@ func vrcStart(t *testing.T, n, replicas int) test.Cluster {
 		m.Config.Cluster.ReplicaN = replicas
 		m.Config.AntiEntropy.Interval = 0
 		m.Config.Metric.Diagnostics = false
+		m.Config.Translation.MapSize = 1 << 28 // the test helper's 140000 bytes overflow after a few thousand keys (the log is not bounds-checked against its map)
 	}
 	if err := c.Start(); err != nil {
 		t.Fatalf("starting %d-node cluster: %v", n, err)
